@@ -21,9 +21,16 @@ UNARY = {
 }
 
 
+LARGE_UNARY = {"tanh": (15.0, 25.0), "expm1": (-40.0, -30.0), "sinh": (20.0, 22.0), "cosh": (20.0, 22.0), "exp": (300.0, 302.0)}
+
+
 def _mk_unary(name, dom, avoid, cplx):
     def draw(c):
         s = c.shape(0, 4)
+        if name in LARGE_UNARY and c.chance(1, 6):
+            d2 = LARGE_UNARY[name]
+            return Call("u:" + name, lambda ns, x: getattr(ns, name)(x), [s], dom=d2, cplx=False, desc=[name, list(s), "large"],
+                        feats={"fn": name, "scale": "large"})
         return Call("u:" + name, lambda ns, x: getattr(ns, name)(x), [s], dom=dom, avoid=avoid, cplx=cplx,
                     desc=[name, list(s)], feats={"fn": name})
 
@@ -65,9 +72,18 @@ def _bfeats(name, sa, sb):
     }
 
 
+# large-magnitude regular points (a rule written with exp(x)/exp(ans) instead of exp(x - ans) overflows there although the
+# derivative is a sigmoid); only domains where the oracle's absolute finite-difference step is still meaningful
+LARGE = {"logaddexp": [(700.0, 712.0), (-800.0, -780.0), (-4.0, 4.0)], "logaddexp2": [(1000.0, 1030.0), (-1060.0, -1040.0), (-4.0, 4.0)]}
+
+
 def _mk_binary(name, dom, cplx):
     def draw(c):
         res, sa, sb = _bshapes(c)
+        if name in LARGE and c.chance(1, 4):
+            d2 = LARGE[name][c.int(0, len(LARGE[name]) - 1)]
+            return Call("b:" + name, lambda ns, x, y: getattr(ns, name)(x, y), [sa, sb], dom=d2, cplx=False,
+                        desc=[name, list(sa), list(sb), "large", list(d2)], feats=dict(_bfeats(name, sa, sb), scale="large"))
         return Call("b:" + name, lambda ns, x, y: getattr(ns, name)(x, y), [sa, sb], dom=dom, cplx=cplx,
                     desc=[name, list(sa), list(sb)], feats=_bfeats(name, sa, sb))
 
